@@ -152,10 +152,10 @@ Proof.
   intros Hw H. induction H as [|b l Hb Hl IH]; [reflexivity|].
   cbn [length partition concat_list]. unfold inr in Hb.
   assert (Hp : 0 < 2 ^ w) by (apply Z.pow_pos_nonneg; lia).
+  replace (b + 2 ^ w * concat_list w l) with (b + concat_list w l * 2 ^ w) by ring.
   f_equal.
-  - rewrite Z.add_comm, Z.mul_comm, Z.mod_add by lia. apply Z.mod_small; lia.
-  - rewrite Z.add_comm, Z.mul_comm, Z.div_add_l by lia. rewrite (Z.div_small b) by lia.
-    rewrite Z.add_0_r. exact IH.
+  - rewrite Z.mod_add by lia. apply Z.mod_small; lia.
+  - rewrite Z.div_add by lia. rewrite (Z.div_small b) by lia. exact IH.
 Qed.
 
 Lemma concat_partition w n x : 0 < w -> 0 <= x < 2 ^ (w * Z.of_nat n) ->
